@@ -52,7 +52,8 @@ ANCHORS = [
     'chi._mechanistic_models.ReducedMechanisticModel.fix_parameters',
 ]
 REQUIRED = {'histories_compared': 300, 'observables_compared': 2000,
-            'copies_checked': 20, 'simulations_compared': 300}
+            'copies_checked': 20, 'simulations_compared': 300,
+            'sensitivities_vs_fd': 50}
 TIMES = np.array([0.3, 1.0, 1.7, 2.4])
 REGS = [dict(dose=2., start=0.5, duration=0.2),
         dict(dose=1., start=0., duration=0.01, period=1., num=2),
@@ -105,6 +106,7 @@ class State(object):
         self.reg = None
         self.outs = None
         self.sens = False
+        self.sens_sub = None   # original names of a sensitivity subset
         self.pnames = {}
         self.onames = {}
         self.reduced = False
@@ -117,7 +119,7 @@ class State(object):
         return s
 
     def key(self):
-        return (self.admin, self.reg, self.outs, self.sens,
+        return (self.admin, self.reg, self.outs, self.sens, self.sens_sub,
                 tuple(sorted(self.pnames)), tuple(sorted(self.onames)),
                 self.reduced, tuple(sorted(self.fixed)))
 
@@ -141,11 +143,41 @@ def replay(tg, st):
             m.fix_parameters({st.pnames.get(k, k): v
                               for k, v in st.fixed.items()})
     if st.sens:
-        m.enable_sensitivities(True)
+        if st.sens_sub is None:
+            m.enable_sensitivities(True)
+        else:
+            m.enable_sensitivities(True, parameter_names=[
+                st.pnames.get(k, k) for k in st.sens_sub])
     return m
 
 
-def observe(m, tg):
+def _fd_sensitivities(m, p, cols):
+    """Richardson-extrapolated central differences of the model's own
+    sensitivity-free simulation (on a copy, which starts with the switch
+    off), for the parameter positions `cols`"""
+    c = m.copy()
+    if c.has_sensitivities():
+        c.enable_sensitivities(False)
+    out = []
+    for j in cols:
+        h = 1e-3 * max(abs(p[j]), 0.1)
+        d = []
+        for hh in (h, h / 2):
+            pp, pm = p.copy(), p.copy()
+            pp[j] += hh
+            pm[j] -= hh
+            d.append((np.asarray(c.simulate(pp, TIMES)) -
+                      np.asarray(c.simulate(pm, TIMES))) / (2 * hh))
+        out.append((4 * d[1] - d[0]) / 3)
+    # (n_times, n_outputs, n_cols)
+    return np.transpose(np.array(out), (2, 1, 0))
+
+
+def observe(m, tg, sens_cols=None, ctx=None, hist=None):
+    """sens_cols: positions (in parameters()) the sensitivities refer to;
+    when given, the sensitivities are also compared with finite differences
+    of the model's own simulation - an oracle that does not pass through the
+    configuration calls at all"""
     o = {}
     o['parameters'] = list(m.parameters())
     o['n_parameters'] = m.n_parameters()
@@ -164,6 +196,21 @@ def observe(m, tg):
     if isinstance(y, tuple):
         o['simulation'] = np.asarray(y[0])
         o['sensitivities'] = np.asarray(y[1])
+        if ctx is not None:
+            cols = list(range(m.n_parameters())) if sens_cols is None \
+                else list(sens_cols)
+            ctx.count('sensitivities_vs_fd')
+            fd = _fd_sensitivities(m, p, cols)
+            got = o['sensitivities']
+            sc = float(np.max(np.abs(fd))) + 1e-6
+            if got.shape != fd.shape or not ctx.close(
+                    got, fd, rtol=1e-4, scale=sc):
+                ctx.violation(
+                    'sensitivities_are_derivatives_of_the_simulation',
+                    'sensitivities_vs_fd',
+                    {'history': hist, 'chi': got, 'finite_differences': fd,
+                     'columns': cols, 'parameters': list(m.parameters())},
+                    {'target': tg.which})
     else:
         o['simulation'] = np.asarray(y)
     return o
@@ -206,10 +253,18 @@ def core_ops(tg):
     return ops
 
 
+def _sens_cols(m, st):
+    if st.sens_sub is None:
+        return None
+    names = list(m.parameters())
+    return sorted(names.index(st.pnames.get(k, k)) for k in st.sens_sub)
+
+
 def extended_ops(tg):
     return core_ops(tg) + [
         ('copy', 'original'), ('rename_param',), ('rename_out',),
-        ('wrap',), ('fix',), ('release',), ('sim',)]
+        ('wrap',), ('fix',), ('release',), ('sim',), ('sens_sub',),
+        ('sens_sub',), ('rename_param',), ('rename_back',)]
 
 
 def apply(ctx, rng, tg, m, st, op, side, hist):
@@ -223,6 +278,7 @@ def apply(ctx, rng, tg, m, st, op, side, hist):
                              amount_var=tg.comps[op[1]][1], direct=op[2])
         st.admin = (tg.comps[op[1]], op[2])
         st.sens = False
+        st.sens_sub = None
     elif k == 'reg':
         if st.admin is None:
             try:
@@ -248,9 +304,29 @@ def apply(ctx, rng, tg, m, st, op, side, hist):
         st.onames = {k_: v for k_, v in st.onames.items()
                      if k_ in tg.outs[op[1]]}
         st.sens = False
+        st.sens_sub = None
     elif k == 'sens':
         m.enable_sensitivities(op[1])
         st.sens = op[1]
+        st.sens_sub = None
+    elif k == 'sens_sub':
+        names = list(m.parameters())
+        if red or len(names) < 2:
+            return None
+        n_sub = int(rng.integers(1, len(names)))
+        sub = [names[i] for i in rng.permutation(len(names))[:n_sub]]
+        m.enable_sensitivities(True, parameter_names=sub)
+        inv = {v: k_ for k_, v in st.pnames.items()}
+        st.sens = True
+        st.sens_sub = tuple(sorted(inv.get(n, n) for n in sub))
+    elif k == 'rename_back':
+        if not st.pnames:
+            return None
+        orig = sorted(st.pnames)[int(rng.integers(len(st.pnames)))]
+        if orig in st.fixed:
+            return None
+        m.set_parameter_names({st.pnames[orig]: orig})
+        st.pnames.pop(orig)
     elif k == 'sim':
         p = np.full(m.n_parameters(), 0.7)
         m.simulate(p, TIMES)
@@ -296,7 +372,9 @@ def apply(ctx, rng, tg, m, st, op, side, hist):
         orig = inv.get(names[j], names[j])
         st.onames[orig] = new
     elif k == 'wrap':
-        if red:
+        # (a wrapper around a model with a sensitivity *subset* has no
+        # documented meaning: not generated)
+        if red or (st.sens and st.sens_sub is not None):
             return None
         m = chi.ReducedMechanisticModel(m)
         st.reduced = True
@@ -343,7 +421,8 @@ def run_history(ctx, rng, tg, ops, tag):
     feats['ops'] = [o[0] for o in hist]
     feats['n_ops'] = len(hist)
     try:
-        a = observe(m, tg)
+        a = observe(m, tg, sens_cols=_sens_cols(m, st) if st.sens else None,
+                    ctx=ctx, hist=hist)
     except Exception as e:      # noqa
         ctx.violation_exc('observation_raises_after_history', e,
                           {'history': hist}, feats)
